@@ -33,6 +33,7 @@ type ctx struct {
 	in     string // input path (behaviours) for replay
 	shards int
 	arg    string
+	part   string // "i/n": execute only the cases k with k % n == i (several processes share one case list)
 }
 
 func (c *ctx) thorough() bool { return c.tier == "thorough" }
@@ -50,6 +51,7 @@ func main() {
 	fs.StringVar(&c.in, "in", "", "input file")
 	fs.IntVar(&c.shards, "shards", 1, "number of output shards (out.0 .. out.N-1)")
 	fs.StringVar(&c.arg, "arg", "", "family specific argument")
+	fs.StringVar(&c.part, "part", "", "i/n: execute only cases k with k%n == i")
 	fs.Parse(os.Args[3:])
 	f, ok := families[fam]
 	if !ok {
